@@ -262,8 +262,42 @@ func main() {
 				out.Line("C03 valid %d %d => %s", mn, mx, validTok(mn, mx))
 				continue
 			}
+			if f := strings.Fields(sc.Text()); len(f) >= 2 && f[0] == "C03" && f[1] == "raw" {
+				if c, ok := parseRaw(f); ok {
+					out.Line("%s => %s", c.input(), runRaw(c))
+				}
+				continue
+			}
+			if f := strings.Fields(sc.Text()); len(f) >= 2 && f[0] == "C03" && f[1] == "block" {
+				if c, ok := parseBlock(f); ok {
+					out.Line("%s => %s", c.input(), runBlock(c))
+				}
+				continue
+			}
 			if c, ok := parse(sc.Text()); ok {
 				out.Line("%s => %s", c.input(), run(c))
+			}
+		}
+		return
+	}
+	if su := a.Extra["suite"]; su == "raw" || su == "block" {
+		total := a.N
+		if total < 0 {
+			total = 1500
+		}
+		root := common.NewRng(common.Seed() + 7919)
+		out := common.NewOut()
+		defer out.Flush()
+		for k := 0; k < total; k++ {
+			if a.Only >= 0 && k != a.Only {
+				continue
+			}
+			if su == "raw" {
+				c := genRaw(root.Fork(uint64(k)))
+				out.Line("%s => %s", c.input(), runRaw(c))
+			} else {
+				c := genBlock(root.Fork(uint64(k)))
+				out.Line("%s => %s", c.input(), runBlock(c))
 			}
 		}
 		return
